@@ -186,6 +186,7 @@ func (fr *Frame) unknownCall(in ssa.Instruction, name string, args []*Val, resT 
 	pure := knownPure[name] || strings.HasPrefix(name, "fmt.") || strings.HasPrefix(name, "errors.") || strings.HasPrefix(name, "log/slog.") || strings.HasPrefix(name, "(*log/slog.") || strings.Contains(name, "log/slog.(*Logger)") || strings.Contains(name, "/internal/logging.") || strings.Contains(name, "/internal/recovery.")
 	if !pure {
 		pre := fr.cur
+		vc.drop("whole-heap-havoc-by:" + shortType(name))
 		fr.cur = fr.cur.Havoc(nil, "c")
 		fr.preserveUnescaped(pre, fr.cur)
 		for _, a := range args {
@@ -778,12 +779,29 @@ func (fr *Frame) atCallAsserts(in ssa.Instruction, cc *ssa.CallCommon, args []*V
 	name := calleeName(cc, callee)
 	occ := fr.occurrence(in, name)
 	for k, ac := range fr.c.AtCalls {
-		if ac.After || ac.Kind == "let" || !calleeMatchesOcc(name, ac.Callee, occ) {
+		if ac.After || !calleeMatchesOcc(name, ac.Callee, occ) {
 			continue
 		}
 		env := fr.specEnvHere()
 		for i, a := range args {
 			env.bound[fmt.Sprintf("$%d", i)] = a
+		}
+		if ac.Kind == "set" {
+			continue
+		}
+		if ac.Kind == "let" {
+			// ghost snapshot of the state right before the call
+			v := env.eval(ac.Cl.E)
+			sn := &Val{T: vc.S.Define("ghost."+ac.Let, vc.sortOfVal(v), vc.term(v)), Typ: v.Typ}
+			if fr.ghosts == nil {
+				fr.ghosts = map[string]*Val{}
+			}
+			fr.ghosts[ac.Let] = sn
+			if vc.letTypes == nil {
+				vc.letTypes = map[string]*Val{}
+			}
+			vc.letTypes[ac.Let] = sn
+			continue
 		}
 		cond := env.evalBool(ac.Cl.E)
 		if ac.Kind == "assume" {
@@ -899,6 +917,19 @@ func (fr *Frame) afterCall(in ssa.Instruction, cc *ssa.CallCommon, args []*Val, 
 				vc.letTypes = map[string]*Val{}
 			}
 			vc.letTypes[ac.Let] = sn
+			continue
+		}
+		if ac.Kind == "set" {
+			// ghost assignment inside the function body: <ghost var> = value of the expression after the call
+			gv, ok := vc.P.CS.GhostVars[ac.Let]
+			if !ok {
+				vc.errorf("after call %s set: %s is not a ghost variable", ac.Callee, ac.Let)
+				continue
+			}
+			v := env.eval(ac.Cl.E)
+			nh := fr.cur.Derive()
+			nh.Set(vc.ghostVarHeap(gv), vc.term(v))
+			fr.cur = nh
 			continue
 		}
 		cond := env.evalBool(ac.Cl.E)
